@@ -496,7 +496,7 @@ def check_batch(ctx, exe, label, cases, with_model):
         if ";dgesv" in il or ";sgesv" in il:
             d["branch:sysv-failed-then-gesv"] = d.get("branch:sysv-failed-then-gesv", 0) + 1
         if "kappa" in meta:
-            b = "kappa:1e%d" % len(str(int(meta["kappa"])))
+            b = "kappa<1e%d" % len(str(int(meta["kappa"])))
             d[b] = d.get(b, 0) + 1
         if info.get("exploration_only"):
             ctx.notes.setdefault("system_lapack_outside_tolerance", []).append({"case": lines[i][:200], "what": info["exploration_only"]})
@@ -548,9 +548,25 @@ def load_corpus():
     return out
 
 
+def findings_witnesses(ctx):
+    """case lines of every listed finding of this property (open or fixed): ordinary regression cases"""
+    out = []
+    for f in ctx.findings:
+        if "C16" in f.get("properties", []):
+            for l in f.get("witness", []) or []:
+                try:
+                    c = Case.parse(l); c.kind = "corpus"; c.meta = {"style": "finding-" + f.get("id", "?")}
+                    out.append(c)
+                except Exception:
+                    pass
+    return out
+
+
 def run(ctx, replay):
     thms = [NS + t for t in vcheck.prop_theorems("AdeptProofs/Props/C16.lean", "C16_")]
-    fails = vcheck.lean_gate(ctx, ["AdeptProofs.Props.C16"], thms, required=[NS + r for r in REQUIRED])
+    thms += [NS + t for t in vcheck.prop_theorems("AdeptProofs/Refute/Solve.lean", "F21_")]
+    fails = vcheck.lean_gate(ctx, ["AdeptProofs.Props.C16", "AdeptProofs.Refute.Solve"], thms,
+                             required=[NS + r for r in REQUIRED])
     exe = build_mini()
     builds = [("mini_lapack", exe, True)]
     if ctx.tier == "thorough":
@@ -567,7 +583,7 @@ def run(ctx, replay):
             check_batch(ctx, e, label, [c], wm)
         finish(ctx, fails)
         return
-    corpus = load_corpus()
+    corpus = load_corpus() + findings_witnesses(ctx)
     cases = generate(ctx.rng, ctx.tier)
     for label, e, wm in builds:
         if corpus:
